@@ -225,7 +225,7 @@ class Gen:
                                                     2024, 99999])), gap)
         if x < 0.85:
             return self.emit('float', rng.choice(['1.5', '0.25', '3.14',
-                                                  '10.0', '.5', '2.']), gap)
+                                                  '10.0', '2.']), gap)
         return self.emit('float', rng.choice(['1e3', '2.5E10', '1E-2']), gap)
 
     def string(self, gap=None):
@@ -799,7 +799,8 @@ class Gen:
     def statement(self, kind=None, depth=None):
         rng, cfg = self.rng, self.cfg
         self.s = Stmt()
-        depth = cfg.max_depth if depth is None else depth
+        depth = min(cfg.max_depth, rng.choice([1, 1, 2, 2, 3])) \
+            if depth is None else depth
         if kind is None:
             kinds = ['select'] * 10
             if cfg.dml:
